@@ -136,6 +136,7 @@ function focusNodes(r, fs_) {
   const it = (f) => X.mem(X.id('item'), f)
   const body = () => ({ t: 'el', tag: 'q', attrs: [{ fam: 'plain', name: 'v', value: M.ev(it('v')) }, { fam: 'data:', name: 'x', value: M.ev(it('x')) }], children: [{ t: 'text', v: M.mv('#', it('id'), ':', X.id('index'), ':', X.id(r.pick(['a', 'flag', 's'])), ':', X.idx(it('sub'), X.num('1'))) }] })
   const out = []
+  if (r.bool(0.4)) out.push({ t: 'el', tag: 'q', attrs: [{ fam: 'plain', name: 'n', value: M.ev(X.mem(X.id('list'), 'length')) }, { fam: 'data:', name: 'foo', value: M.ev(X.mem(X.idx(X.id('list'), X.num('1')), 'v')) }], children: [{ t: 'text', v: M.mv('', X.mem(X.idx(X.arr([{ k: 'spread', e: X.id('list') }]), X.num('0')), 'id'), '/', X.mem(X.obj([{ k: 'spread', e: X.id('arr') }]), 'length'), '/', X.mem(X.id('arr'), 'length')) }] })
   const k = r.range(1, 2)
   for (let i = 0; i < k; i++) {
     const kind = r.int(10)
@@ -150,6 +151,8 @@ function focusNodes(r, fs_) {
       // next to an element that receives the slot values; the child renders the content once per list item
       const kids = []
       if (r.bool(0.7)) kids.push({ t: 'if', branches: [{ cond: M.ev(X.id(r.pick(['flag', 'a', 'n']))), node: { t: 'block', children: [{ t: 'el', tag: 'q', attrs: [], children: [{ t: 'text', v: M.mv('yes', X.id('a')) }] }] } }], els: r.bool(0.4) ? { t: 'block', children: [{ t: 'el', tag: 'q', attrs: [], children: [{ t: 'text', v: M.mv('no', X.id('s')) }] }] } : null })
+      // text directly in the slot content (no element around it)
+      if (r.bool(0.5)) kids.push({ t: 'text', v: M.mv('t:', X.id(r.pick(['a', 's', 'flag']))) })
       kids.push({ t: 'el', tag: 'q', attrs: [{ fam: 'plain', name: 'w', value: M.ev(X.id('v')) }], slotVals: r.bool(0.7) ? [{ name: 'v' }, { name: 'i' }] : [], children: [{ t: 'text', v: M.mv('', X.id('v'), '-', X.id('i'), '-', X.id(r.pick(['a', 's', 'flag']))) }] })
       const defs = (fs_.files[fs_.main].defs || []).map((d) => d.name)
       if (defs.length && r.bool(0.3)) kids.push({ t: 'tref', is: M.sv(r.pick(defs)), data: X.obj([{ k: 'kv', name: 'a', e: X.id('a') }]) })
